@@ -155,7 +155,7 @@ func VerifC18_Counter() {
 	sym.Reach("counted")
 	// remaining budget semantic: allowed at most n times in total; once refused, refused ever after
 	after := c[name]
-	sym.Assume(n > -(1<<62))
+	sym.Assume(n > -(1 << 62))
 	sym.Assert(after == n-1, "counter must decrease by exactly one per call")
 	if a1 == ptracer.TraceAllow {
 		sym.Assert(n >= 1, "a call was allowed with no budget left")
